@@ -52,7 +52,11 @@ def generate(rng, tier):
             p = rand_tp(rng, md, tod=tod, zone=(z if z and rng.random() < 0.5 else None))
         else:
             # hh:mm:ss forms only: fractional hour/minute forms are the float regime (known finding F11)
-            p = rand_tp(rng, md, form="S", allow24=(rng.random() < 0.1), decimals=False)
+            # the 24:00 end-of-day form of the full point matters most when the truncated point names no time field
+            if rng.random() < (0.3 if not ts else 0.1):
+                p = rand_tp(rng, md, tod="S 24 0 0")
+            else:
+                p = rand_tp(rng, md, form="S", allow24=False, decimals=False)
         t = " ".join(fmt_opt(x) for x in (h, m, s, dow, dom, doy, wk)) + " " + ("%d %d" % z if z else "- -")
         cases.append(Case(["tadd %s %s %s" % (md, t, p)],
                           ["mode:" + md, "time:" + (ts or "none"), "day:" + (dsh or "none"), "tzone:" + ("given" if z else "unknown"),
